@@ -135,7 +135,7 @@ func (c *ctx) casePnot(t *T) {
 	})
 	if p {
 		impl = "panic"
-		c.violate("parser/"+site, "panic", "propagateNot panicked: "+msg, req)
+		c.violate("parser/"+site, "parser-panics", "propagateNot panicked: "+msg, req)
 	}
 	c.chPnot.Add(req, impl, t.hasNot(), fmt.Sprintf("size=%d", min(t.size(), 12)))
 }
@@ -167,7 +167,7 @@ func (c *ctx) caseEval(t *T, k int) {
 	})
 	if p {
 		impl = "panic"
-		c.violate(site, "panic", "eval tree panicked: "+msg, req)
+		c.violate(site, "parser-panics", "eval tree panicked: "+msg, req)
 	}
 	nt := strings.ContainsAny(t.String(), "!^")
 	c.chEval.Add(req, impl, nt, fmt.Sprintf("size=%d", min(t.size(), 12)))
@@ -356,12 +356,17 @@ func renderTree(t *T, r *vh.RNG, lvl int) []tok {
 
 // ---------------------------------------------------------------- oracle truth
 
+// decos are word runes outside the everyday classes: No (superscript two, one half, circled one), Nl (ideographic zero),
+// Lm (modifier letter h), Nd outside ASCII (arabic-indic three).  None of them has a case mapping.
+var decos = []string{"²", "½", "①", "〇", "ʰ", "٣"}
+
 // E is a written expression: boolean structure over field filters; a filter is a single value, an in-list
 // (disjunction of values) or a quoted multi-word text (conjunction of words).
 type E struct {
 	op    byte // 'a' single, 'i' in-list, 't' multi-word text, 'j' in-list of multi-word texts, '!', '&', '|'
 	atoms []int
 	items [][]int // 'j': the words of every item
+	deco  string  // a word rune of another Unicode class (No, Nl, Lm, non-ASCII Nd) written inside every value: v<deco><n>
 	sep   string  // 't': what stands between the words (default one space); any non-word bytes, also invalid UTF-8
 	l, r  *E
 }
@@ -423,10 +428,16 @@ func randE(r *vh.RNG, size, k int) *E {
 		case 1:
 			n := 2 + r.Intn(2)
 			e := &E{op: 't', sep: []string{" ", " ", "  ", "-", ": ", "\xff", "\xc3", " \xe2\x82 ", "\xff\xfe", ", "}[r.Intn(10)]}
+			if r.Chance(1, 3) {
+				e.deco = decos[r.Intn(len(decos))]
+			}
 			for i := 0; i < n; i++ {
 				e.atoms = append(e.atoms, r.Intn(k))
 			}
 			return e
+		}
+		if r.Chance(1, 6) {
+			return &E{op: 'a', atoms: []int{r.Intn(k)}, deco: decos[r.Intn(len(decos))]}
 		}
 		return &E{op: 'a', atoms: []int{r.Intn(k)}}
 	}
@@ -498,9 +509,16 @@ func (e *E) render(st style, r *vh.RNG, lvl int) string {
 		if r != nil {
 			f = []string{"fk", "ft", "fp"}[r.Intn(3)]
 		}
-		v := fmt.Sprintf("v%d", e.atoms[0])
-		pat := st.wild || (r != nil && st.fancy && r.Chance(1, 3))
-		if pat {
+		if e.deco != "" {
+			f = "ft"
+		}
+		v := fmt.Sprintf("v%s%d", e.deco, e.atoms[0])
+		pat := e.deco == "" && (st.wild || (r != nil && st.fancy && r.Chance(1, 3)))
+		if e.deco != "" && !st.legacy {
+			v = `"` + v + `"` // such runes are not SeqQL token runes: the value has to be quoted
+		} else if e.deco != "" {
+			// legacy: bare word
+		} else if pat {
 			form := e.atoms[0] % 2
 			if r != nil {
 				form = r.Intn(3)
@@ -568,7 +586,7 @@ func (e *E) render(st style, r *vh.RNG, lvl int) string {
 	case 't':
 		vals := make([]string, len(e.atoms))
 		for i, a := range e.atoms {
-			vals[i] = fmt.Sprintf("v%d", a)
+			vals[i] = fmt.Sprintf("v%s%d", e.deco, a)
 		}
 		sep := e.sep
 		if sep == "" {
@@ -603,7 +621,7 @@ func (c *ctx) caseTruth(which string, k int, want string, q string, _ string, ta
 	c.orTruth.Case(which+" "+q, nt, "parser="+which, "style="+tag, "result="+o.kind)
 	switch o.kind {
 	case "panic":
-		c.violate("parser/"+strings.TrimPrefix(o.site, "parser/"), "panic", fmt.Sprintf("%s panicked on a well-formed expression: %s", which, o.msg), replay)
+		c.violate("parser/"+strings.TrimPrefix(o.site, "parser/"), "parser-panics", fmt.Sprintf("%s panicked on a well-formed expression: %s", which, o.msg), replay)
 		return
 	case "err":
 		c.violate("parser:"+which, "well-formed-rejected", fmt.Sprintf("%s rejected the well-formed expression %q: %s", which, q, o.msg), replay)
@@ -613,7 +631,7 @@ func (c *ctx) caseTruth(which string, k int, want string, q string, _ string, ta
 	var err error
 	p, site, msg := guarded(func() { got, err = realTable(root, k, leafID) })
 	if p {
-		c.violate(site, "panic", "evaluating the parsed tree panicked: "+msg, replay)
+		c.violate(site, "parser-panics", "evaluating the parsed tree panicked: "+msg, replay)
 		return
 	}
 	if err != nil {
@@ -629,7 +647,7 @@ func (c *ctx) caseTruth(which string, k int, want string, q string, _ string, ta
 		var got2 string
 		p, site, msg = guarded(func() { got2, err = searchTable(root, k, order) })
 		if p {
-			c.violate(site, "panic", "IndexSearch panicked: "+msg, replay)
+			c.violate(site, "parser-panics", "IndexSearch panicked: "+msg, replay)
 			return
 		}
 		if err != nil {
@@ -678,6 +696,16 @@ func (c *ctx) runTruth(r *vh.RNG) {
 			}
 		}
 	}
+	// directed: words that contain runes of the classes No / Nl / Lm / non-ASCII Nd (all word runes for both parsers and
+	// for the indexer): a single word, a phrase of two, and negated - on a text field, both query languages
+	for _, d := range decos {
+		for _, e := range []*E{{op: 'a', atoms: []int{0}, deco: d}, {op: 't', atoms: []int{0, 1}, deco: d}, {op: '!', l: &E{op: 't', atoms: []int{1, 2}, deco: d, sep: "-"}}} {
+			want := e.tree().table(3)
+			for _, which := range []string{"seqql", "legacy"} {
+				c.caseTruth(which, 3, want, e.render(style{legacy: which == "legacy"}, nil, 0), "", "unicode-classes")
+			}
+		}
+	}
 	// directed: in-lists on a text field whose items are several words (each item is a conjunction, the list a disjunction)
 	for _, items := range [][][]int{{{0, 1}}, {{0, 1}, {2}}, {{0}, {1, 2}}, {{0, 1}, {1, 2}}, {{0, 1, 2}, {0}}} {
 		e := &E{op: 'j', items: items}
@@ -713,7 +741,7 @@ func (c *ctx) caseTotal(which, mid, q, tag string) {
 	endCase()
 	c.orTotal.Case(which+" "+mid+" "+q, o.kind != "ok", "parser="+which, "mapping="+mid, "gen="+tag, "result="+o.kind)
 	if o.kind == "panic" {
-		class := "panic"
+		class := "parser-panics"
 		if strings.Contains(o.msg, "index type") {
 			class = "panic-unsupported-index-type"
 		}
@@ -730,14 +758,14 @@ func (c *ctx) caseDeepIn(which, shape string, d int) {
 	endCase()
 	c.orTotal.Case(key, o.kind != "ok", "parser="+which, "gen=deepin-"+shape, "result="+o.kind)
 	if o.kind == "panic" {
-		c.violate(o.site, "panic", fmt.Sprintf("%s on %s x %d panicked: %s", which, shape, d, o.msg), key)
+		c.violate(o.site, "parser-panics", fmt.Sprintf("%s on %s x %d panicked: %s", which, shape, d, o.msg), key)
 	}
 }
 
 var hostileFields = []string{"fk", "ft", "fp", "fo", "fg", "fn", "fe", "fz", "fu", "fm", "fm.keyword", "_all_", "_exists_", "_index",
 	"service", "message", "process", "tags", "spans", "process.tags", "request_uri", "not", "and", "in", "to", "fields", "", "*", "f*", `"fk"`, "'fo'", "`fg`"}
 
-var hostileValues = []string{"a", "abc", "a*", "*a", "*", "**", "a*b*c", `"a b"`, `'a b'`, "`a b`", `"a\"b"`, `'a\'b'`, `"a\\"`, `"\*"`, `"*"`, `'\x41'`,
+var hostileValues = []string{`"a\"`, `'it\'s`, `"payment \"failed and level:3`, `"x\\\"`, "v²1", "\"v½ ①\"", "〇ʰ٣", "a\u0301b", "a", "abc", "a*", "*a", "*", "**", "a*b*c", `"a b"`, `'a b'`, "`a b`", `"a\"b"`, `'a\'b'`, `"a\\"`, `"\*"`, `"*"`, `'\x41'`,
 	`"é"`, `"\xff"`, "\xff", "\xc3", "", "ab", "[1, 5]", "(1, 5]", "[1 to 5)", "[a TO b]", "{a TO b}", "[* TO 5]", "[1, *]", "[*, *]", "[a, b, c]",
 	"in(a, b)", "in(a)", "in()", "in(a,)", "in(a b)", "IN('a', `b`, \"c*\")", "a-b", "a_b.c", "-", "--a", "a:b", "", " ", "\"", "'", "`", "\\", "\\*", "a\\ b", "a\\-b",
 	"http://x/y", "@gmail.com", "$", "a$", "(a)", "1e308", "é", "K", "İ", "日本", "\"ab\xffcdef gh\"", "\"\xff\"", "'a\xff'", "`\xc3`", "\"caf\xe9\"", "\"a \xe2\x82\"", "a\tb", "a\nb", "`a\rb`", "`\r`", "'a\rb'", "# c\n a", "a # c", "a|b", "a,b"}
